@@ -1,6 +1,9 @@
-// Driver for C42: runs pkg/sortition's MonitorPool (its first status check) against a scripted
-// chain for every combination of chain answers and several join policies, and records which
-// state-changing requests the client made.
+// Driver for C42: runs pkg/sortition's MonitorPool and then checkOperatorStatus tick after tick
+// (as MonitorPool's ticker loop does) against ONE scripted chain and ONE long-lived join policy
+// object graph — ConjunctionPolicy over scripted sub-policies, BetaOperatorPolicy, tbtc's
+// enoughPreParamsInPoolPolicy and tbtc's own composition — over histories of 1-8 ticks in which the
+// chain answers, the sub-policy answers, the lock state and the injected errors change from tick
+// to tick. Per tick it records the state-changing requests and the questions asked.
 package main
 
 import (
@@ -9,24 +12,38 @@ import (
 	"math/big"
 	"os"
 	"strings"
+	"sync"
 	"time"
 
+	"github.com/bnb-chain/tss-lib/crypto/paillier"
+	"github.com/bnb-chain/tss-lib/ecdsa/keygen"
 	"github.com/ipfs/go-log"
+	"github.com/keep-network/keep-common/pkg/persistence"
 	"github.com/keep-network/keep-core/pkg/chain"
+	"github.com/keep-network/keep-core/pkg/generator"
 	"github.com/keep-network/keep-core/pkg/sortition"
+	"github.com/keep-network/keep-core/pkg/tbtc"
+	"github.com/keep-network/keep-core/pkg/tecdsa/dkg"
 
 	"verifharness/lib"
 )
 
 // answers: 0 = true, 1 = false, 2 = error
-type world struct {
-	Registered, InPool, UpToDate, Locked, Eligible, CanRestore, Chaosnet, Beta int
-	RestoreFails, UpdateFails, JoinFails                                    bool
+type tick struct {
+	InPool, UpToDate, Locked, Eligible, CanRestore, Chaosnet, Beta int
+	RestoreFails, UpdateFails, JoinFails                           bool
+	Script                                                         []bool // answers of the scripted sub-policies at this tick
+	PreSize                                                        int    // configured pre-parameters pool size at this tick
 }
 
+const nScript = 3
+
+// fakeChain lives through the whole history; cur is the script of the current tick.
 type fakeChain struct {
-	w   world
-	txs []string
+	registered int
+	cur        *tick
+	txs        []string
+	queries    []string
 }
 
 var errScripted = fmt.Errorf("scripted chain error")
@@ -46,59 +63,98 @@ func fail(b bool) error {
 	}
 	return nil
 }
+func (f *fakeChain) q(name string, a int) (bool, error) {
+	f.queries = append(f.queries, name)
+	return ans(a)
+}
 func (f *fakeChain) OperatorToStakingProvider() (chain.Address, bool, error) {
-	b, err := ans(f.w.Registered)
+	b, err := ans(f.registered)
 	return chain.Address("0xaa"), b, err
 }
 func (f *fakeChain) EligibleStake(chain.Address) (*big.Int, error) { return big.NewInt(1), nil }
-func (f *fakeChain) IsPoolLocked() (bool, error)                  { return ans(f.w.Locked) }
-func (f *fakeChain) IsOperatorInPool() (bool, error)              { return ans(f.w.InPool) }
-func (f *fakeChain) IsOperatorUpToDate() (bool, error)            { return ans(f.w.UpToDate) }
+func (f *fakeChain) IsPoolLocked() (bool, error)                   { return f.q("QLocked", f.cur.Locked) }
+func (f *fakeChain) IsOperatorInPool() (bool, error)               { return f.q("QInPool", f.cur.InPool) }
+func (f *fakeChain) IsOperatorUpToDate() (bool, error)             { return f.q("QUpToDate", f.cur.UpToDate) }
 func (f *fakeChain) JoinSortitionPool() error {
 	f.txs = append(f.txs, "Join")
-	return fail(f.w.JoinFails)
+	return fail(f.cur.JoinFails)
 }
 func (f *fakeChain) UpdateOperatorStatus() error {
 	f.txs = append(f.txs, "Update")
-	return fail(f.w.UpdateFails)
+	return fail(f.cur.UpdateFails)
 }
-func (f *fakeChain) IsEligibleForRewards() (bool, error)        { return ans(f.w.Eligible) }
-func (f *fakeChain) CanRestoreRewardEligibility() (bool, error) { return ans(f.w.CanRestore) }
+func (f *fakeChain) IsEligibleForRewards() (bool, error) { return f.q("QEligible", f.cur.Eligible) }
+func (f *fakeChain) CanRestoreRewardEligibility() (bool, error) {
+	return f.q("QCanRestore", f.cur.CanRestore)
+}
 func (f *fakeChain) RestoreRewardEligibility() error {
 	f.txs = append(f.txs, "Restore")
-	return fail(f.w.RestoreFails)
+	return fail(f.cur.RestoreFails)
 }
-func (f *fakeChain) IsChaosnetActive() (bool, error) { return ans(f.w.Chaosnet) }
-func (f *fakeChain) IsBetaOperator() (bool, error)   { return ans(f.w.Beta) }
+func (f *fakeChain) IsChaosnetActive() (bool, error) { return f.q("QChaosnet", f.cur.Chaosnet) }
+func (f *fakeChain) IsBetaOperator() (bool, error)   { return f.q("QBeta", f.cur.Beta) }
 func (f *fakeChain) GetOperatorID(chain.Address) (chain.OperatorID, error) {
 	return 1, nil
 }
 
-type constPolicy bool
+// scriptPolicy is "any other JoinPolicy": it answers what the current tick scripts for it.
+type scriptPolicy struct {
+	i  int
+	fc *fakeChain
+}
 
-func (c constPolicy) ShouldJoin() bool { return bool(c) }
+func (s *scriptPolicy) ShouldJoin() bool {
+	s.fc.queries = append(s.fc.queries, "(QAsk "+lib.Nat(s.i)+")")
+	return s.i < len(s.fc.cur.Script) && s.fc.cur.Script[s.i]
+}
 
 // policies: a small language mirrored by Model/C42.v's [policy]
 type pol struct {
-	Kind string `json:"kind"` // uncond | beta | const | conj
-	B    bool   `json:"b,omitempty"`
+	Kind string `json:"kind"` // uncond | beta | script | pre | tbtc | conj
+	I    int    `json:"i,omitempty"`
 	Ps   []pol  `json:"ps,omitempty"`
 }
 
-func (p pol) build(c sortition.Chain, lg log.StandardLogger) sortition.JoinPolicy {
+// graph is the long-lived object graph of one history
+type graph struct {
+	fc   *fakeChain
+	exec *dkg.Executor
+	pres []*tbtc.VerifC42PreParamsPolicy
+}
+
+func (g *graph) build(p pol) sortition.JoinPolicy {
 	switch p.Kind {
 	case "uncond":
 		return sortition.UnconditionalJoinPolicy
 	case "beta":
-		return sortition.NewBetaOperatorPolicy(c, lg)
-	case "const":
-		return constPolicy(p.B)
+		return sortition.NewBetaOperatorPolicy(g.fc, logger)
+	case "script":
+		return &scriptPolicy{p.I, g.fc}
+	case "pre":
+		h := tbtc.VerifC42NewPreParamsPolicy(g.exec, 0)
+		g.pres = append(g.pres, h)
+		return h.Policy()
+	case "tbtc": // the composition tbtc.Initialize hands to MonitorPool
+		h := tbtc.VerifC42NewPreParamsPolicy(g.exec, 0)
+		g.pres = append(g.pres, h)
+		return tbtc.VerifC42JoinPolicy(g.fc, logger, h)
 	}
 	var ps []sortition.JoinPolicy
 	for _, q := range p.Ps {
-		ps = append(ps, q.build(c, lg))
+		ps = append(ps, g.build(q))
 	}
 	return sortition.NewConjunctionPolicy(ps...)
+}
+func (p pol) usesPre() bool {
+	if p.Kind == "pre" || p.Kind == "tbtc" {
+		return true
+	}
+	for _, q := range p.Ps {
+		if q.usesPre() {
+			return true
+		}
+	}
+	return false
 }
 func (p pol) coq() string {
 	switch p.Kind {
@@ -106,8 +162,12 @@ func (p pol) coq() string {
 		return "PUncond"
 	case "beta":
 		return "PBeta"
-	case "const":
-		return "(PConst " + lib.Bool(p.B) + ")"
+	case "script":
+		return "(PScript " + lib.Nat(p.I) + ")"
+	case "pre":
+		return "PPre"
+	case "tbtc":
+		return "(PConj [PBeta; PPre])"
 	}
 	var s []string
 	for _, q := range p.Ps {
@@ -115,53 +175,295 @@ func (p pol) coq() string {
 	}
 	return "(PConj " + lib.List(s) + ")"
 }
+func (p pol) shape() string {
+	if p.Kind != "conj" {
+		return p.Kind
+	}
+	var s []string
+	for _, q := range p.Ps {
+		s = append(s, q.shape())
+	}
+	return "conj(" + strings.Join(s, ",") + ")"
+}
+
+// allows is the driver's own reading of "the join policy allows joining at this tick": every
+// leaf's answer at this tick is yes. Computed from the script only; no policy object is touched.
+func (p pol) allows(t *tick, preCount int) bool {
+	beta := t.Chaosnet == 1 || (t.Chaosnet == 0 && t.Beta == 0)
+	pre := preCount >= t.PreSize
+	switch p.Kind {
+	case "uncond":
+		return true
+	case "beta":
+		return beta
+	case "script":
+		return p.I < len(t.Script) && t.Script[p.I]
+	case "pre":
+		return pre
+	case "tbtc":
+		return beta && pre
+	}
+	all := true
+	for _, q := range p.Ps {
+		if !q.allows(t, preCount) {
+			all = false
+		}
+	}
+	return all
+}
 
 func a(i int) string { return []string{"ATrue", "AFalse", "AErr"}[i] }
-func (w world) coq() string {
-	return fmt.Sprintf("{| registered := %s; in_pool := %s; up_to_date := %s; locked := %s; eligible := %s; can_restore := %s; chaosnet := %s; beta := %s; restore_fails := %s; update_fails := %s; join_fails := %s |}",
-		a(w.Registered), a(w.InPool), a(w.UpToDate), a(w.Locked), a(w.Eligible), a(w.CanRestore), a(w.Chaosnet), a(w.Beta),
-		lib.Bool(w.RestoreFails), lib.Bool(w.UpdateFails), lib.Bool(w.JoinFails))
+func (t tick) coq(reg, preCount int) string {
+	var sc []string
+	for _, b := range t.Script {
+		sc = append(sc, lib.Bool(b))
+	}
+	return fmt.Sprintf("{| registered := %s; in_pool := %s; up_to_date := %s; locked := %s; eligible := %s; can_restore := %s; chaosnet := %s; beta := %s; restore_fails := %s; update_fails := %s; join_fails := %s; scripted := %s; pre_count := %s; pre_size := %s |}",
+		a(reg), a(t.InPool), a(t.UpToDate), a(t.Locked), a(t.Eligible), a(t.CanRestore), a(t.Chaosnet), a(t.Beta),
+		lib.Bool(t.RestoreFails), lib.Bool(t.UpdateFails), lib.Bool(t.JoinFails),
+		lib.List(sc), lib.Z(int64(preCount)), lib.Z(int64(t.PreSize)))
 }
 
 type input struct {
-	Policy pol     `json:"policy"`
-	Worlds []world `json:"worlds"`
+	Registered int    `json:"registered"`
+	Policy     pol    `json:"policy"`
+	PreCount   int    `json:"pre_count"` // pre-parameters held by the executor's pool
+	Ticks      []tick `json:"ticks"`
 }
 
 var logger = log.Logger("verif-c42")
 
-func runStep(p pol, w world) (txs []string, errd bool) {
-	fc := &fakeChain{w: w}
-	ctx, cancel := context.WithCancel(context.Background())
-	defer cancel()
+// ---- a real dkg.Executor holding n (dummy) pre-parameters, nothing generated in the background
+
+type memDescriptor struct {
+	name, dir string
+	content   []byte
+}
+
+func (d *memDescriptor) Name() string             { return d.name }
+func (d *memDescriptor) Directory() string        { return d.dir }
+func (d *memDescriptor) Content() ([]byte, error) { return d.content, nil }
+
+type memPersistence struct{ items []*memDescriptor }
+
+func (p *memPersistence) Save([]byte, string, string) error { return nil }
+func (p *memPersistence) Delete(string, string) error       { return nil }
+func (p *memPersistence) ReadAll() (<-chan persistence.DataDescriptor, <-chan error) {
+	dc := make(chan persistence.DataDescriptor)
+	ec := make(chan error)
+	go func() {
+		for _, it := range p.items {
+			dc <- it
+		}
+		close(dc)
+		close(ec)
+	}()
+	return dc, ec
+}
+
+var (
+	execMu    sync.Mutex
+	execCache = map[int]*dkg.Executor{}
+)
+
+// executorWith returns an executor whose pool holds exactly n pre-parameters (read through its own
+// persistence path, on a stopped scheduler). The pool is never drained here, so one executor per
+// count is shared by all histories.
+func executorWith(n int) *dkg.Executor {
+	execMu.Lock()
+	defer execMu.Unlock()
+	if e, ok := execCache[n]; ok {
+		return e
+	}
+	one := big.NewInt(1)
+	pers := &memPersistence{}
+	for i := 0; i < n; i++ {
+		pre := &keygen.LocalPreParams{
+			PaillierSK: &paillier.PrivateKey{PublicKey: paillier.PublicKey{N: one}, LambdaN: one, PhiN: one},
+			NTildei:    one, H1i: one, H2i: one, Alpha: one, Beta: one, P: one, Q: one,
+		}
+		b, err := dkg.VerifNewPreParams(pre).Marshal()
+		if err != nil {
+			panic(err)
+		}
+		pers.items = append(pers.items, &memDescriptor{fmt.Sprintf("pp_%d", i), "preparams", b})
+	}
+	e := dkg.NewExecutor(logger, generator.VerifNewStoppedScheduler(), pers, n+4, time.Minute, time.Second, 1, 1)
+	if e.PreParamsCount() != n {
+		panic(fmt.Sprintf("pre-params pool holds %d of %d entries", e.PreParamsCount(), n))
+	}
+	execCache[n] = e
+	return e
+}
+
+type obs struct {
+	Txs     []string `json:"txs"`
+	Queries []string `json:"queries"`
+	Err     string   `json:"err"` // yes | no | unobservable
+	Allow   bool     `json:"policy_allows"`
+}
+
+// oneCheck runs one status check on the long-lived objects. first: through MonitorPool (which
+// resolves the registration and runs the first check); otherwise the ticker's call.
+func oneCheck(g *graph, policy sortition.JoinPolicy, t *tick, first bool, cancels *[]context.CancelFunc) (o obs, monitorErr bool) {
+	g.fc.cur, g.fc.txs, g.fc.queries = t, nil, nil
+	for _, h := range g.pres {
+		h.SetPreParamsPoolSize(t.PreSize)
+	}
 	defer func() {
 		if r := recover(); r != nil {
-			txs, errd = append(fc.txs, "PANIC"), true
+			o = obs{Txs: append(g.fc.txs, "Panic"), Queries: g.fc.queries, Err: "unobservable"}
 		}
 	}()
-	err := sortition.MonitorPool(ctx, logger, fc, 24*time.Hour, p.build(fc, logger))
-	return fc.txs, err != nil
+	if first {
+		ctx, cancel := context.WithCancel(context.Background())
+		*cancels = append(*cancels, cancel)
+		err := sortition.MonitorPool(ctx, logger, g.fc, 24*time.Hour, policy)
+		return obs{Txs: g.fc.txs, Queries: g.fc.queries, Err: "unobservable"}, err != nil
+	}
+	err := sortition.VerifC42CheckOperatorStatus(logger, g.fc, policy)
+	e := "no"
+	if err != nil {
+		e = "yes"
+	}
+	return obs{Txs: g.fc.txs, Queries: g.fc.queries, Err: e}, false
 }
 
 func run(in input, em *lib.Emitter, id string) {
-	var steps []string
-	var outs []interface{}
-	nontrivial := false
-	sig := map[string]interface{}{"policy": in.Policy.Kind}
-	for _, w := range in.Worlds {
-		txs, errd := runStep(in.Policy, w)
-		for _, t := range txs {
-			em.Tally("tx-" + t)
-			nontrivial = true
+	for i := range in.Ticks {
+		for len(in.Ticks[i].Script) < nScript {
+			in.Ticks[i].Script = append(in.Ticks[i].Script, false)
 		}
-		if len(txs) == 0 {
+	}
+	g := &graph{fc: &fakeChain{registered: in.Registered}}
+	if in.Policy.usesPre() {
+		g.exec = executorWith(in.PreCount)
+	}
+	policy := g.build(in.Policy) // built ONCE
+	var cancels []context.CancelFunc
+	defer func() {
+		for _, c := range cancels {
+			c()
+		}
+	}()
+
+	var steps []string
+	var outs []obs
+	nontrivial, monitorErr := false, false
+	joins, flips := 0, 0
+	for i := range in.Ticks {
+		t := &in.Ticks[i]
+		var o obs
+		if i == 0 {
+			o, monitorErr = oneCheck(g, policy, t, true, &cancels)
+		} else if monitorErr {
+			break // MonitorPool gave up: there is no ticker
+		} else {
+			o, _ = oneCheck(g, policy, t, false, &cancels)
+		}
+		o.Allow = in.Policy.allows(t, in.PreCount)
+		if i > 0 && o.Allow != outs[i-1].Allow {
+			flips++
+		}
+		for _, x := range o.Txs {
+			em.Tally("tx-" + x)
+			nontrivial = true
+			if x == "Join" {
+				joins++
+			}
+		}
+		if len(o.Txs) == 0 {
 			em.Tally("tx-none")
 		}
-		steps = append(steps, fmt.Sprintf("{| s_world := %s; s_txs := %s; s_err := %s |}", w.coq(), lib.List(txs), lib.Bool(errd)))
-		outs = append(outs, map[string]interface{}{"txs": txs, "err": errd})
+		e := "None"
+		if o.Err != "unobservable" {
+			e = lib.Some(lib.Bool(o.Err == "yes"))
+		}
+		steps = append(steps, fmt.Sprintf("{| s_world := %s; s_txs := %s; s_queries := %s; s_err := %s; s_allow := %s |}",
+			t.coq(in.Registered, in.PreCount), lib.List(o.Txs), lib.List(o.Queries), e, lib.Bool(o.Allow)))
+		outs = append(outs, o)
 	}
-	coq := fmt.Sprintf("{| c_policy := %s; c_steps := %s |}", in.Policy.coq(), lib.List(steps))
-	em.Case(lib.Case{ID: id, Coq: coq, Key: coq[:strings.Index(coq, "s_txs")] + fmt.Sprint(len(coq)) + fmt.Sprint(in.Worlds), Nontrivial: nontrivial, Sig: sig, In: in, Out: outs})
+	em.Tally(fmt.Sprintf("ticks-%d", len(outs)))
+	if flips > 0 {
+		em.Tally("policy-answer-changes-between-ticks")
+	}
+	sig := map[string]interface{}{"policy": in.Policy.Kind, "shape": in.Policy.shape(), "registered": in.Registered == 0}
+	coq := fmt.Sprintf("{| c_registered := %s; c_policy := %s; c_steps := %s; c_monitor_err := %s |}",
+		a(in.Registered), in.Policy.coq(), lib.List(steps), lib.Bool(monitorErr))
+	key := fmt.Sprintf("%d|%s|%d|%v", in.Registered, in.Policy.coq(), in.PreCount, in.Ticks)
+	em.Case(lib.Case{ID: id, Coq: coq, Key: key, Nontrivial: nontrivial, Sig: sig, In: in,
+		Out: map[string]interface{}{"monitor_err": monitorErr, "ticks": outs}})
+}
+
+// ---- generators
+
+func conj(p ...pol) pol { return pol{Kind: "conj", Ps: p} }
+func S(i int) pol       { return pol{Kind: "script", I: i} }
+
+var (
+	pUncond = pol{Kind: "uncond"}
+	pBeta   = pol{Kind: "beta"}
+	pPre    = pol{Kind: "pre"}
+	pTbtc   = pol{Kind: "tbtc"}
+)
+
+// joinable: operator out of the pool, out of date, pool unlocked — the check reaches the policy
+func joinable(sc ...bool) tick {
+	return tick{InPool: 1, UpToDate: 1, Locked: 1, Eligible: 0, CanRestore: 1, Chaosnet: 1, Beta: 1, Script: sc}
+}
+
+// beta states: the five distinguishable (chaosnet, beta) answers
+var betaStates = [][2]int{{1, 1}, {0, 0}, {0, 1}, {2, 0}, {0, 2}}
+
+func withBeta(t tick, s int) tick { t.Chaosnet, t.Beta = betaStates[s][0], betaStates[s][1]; return t }
+
+func randTick(r *lib.Rng) tick {
+	a3 := func(pErr int) int {
+		if r.Chance(1, pErr) {
+			return 2
+		}
+		return r.Intn(2)
+	}
+	t := tick{InPool: a3(12), UpToDate: a3(12), Locked: a3(10), Eligible: a3(8), CanRestore: a3(8),
+		Chaosnet: a3(6), Beta: a3(6),
+		RestoreFails: r.Chance(1, 4), UpdateFails: r.Chance(1, 4), JoinFails: r.Chance(1, 4),
+		PreSize: r.Intn(5)}
+	if r.Chance(3, 5) { // mostly: the check reaches the joining decision
+		t.InPool, t.UpToDate, t.Locked = 1, 1, 1
+		if r.Chance(1, 6) {
+			t.Locked = r.Intn(3)
+		}
+	}
+	for i := 0; i < nScript; i++ {
+		t.Script = append(t.Script, r.Chance(3, 5))
+	}
+	return t
+}
+
+func randPol(r *lib.Rng, depth int) pol {
+	if depth == 0 || (depth < 2 && r.Chance(1, 4)) {
+		n := r.Intn(4)
+		if depth == 0 {
+			n = 2 + r.Intn(3)
+		}
+		p := pol{Kind: "conj"}
+		for i := 0; i < n; i++ {
+			p.Ps = append(p.Ps, randPol(r, depth+1))
+		}
+		return p
+	}
+	switch r.Intn(8) {
+	case 4, 5:
+		return pBeta
+	case 6:
+		if r.Bool() {
+			return pTbtc
+		}
+		return pPre
+	case 7:
+		return pUncond
+	}
+	return S(r.Intn(nScript))
 }
 
 func main() {
@@ -179,67 +481,188 @@ func main() {
 		return
 	}
 	rng := lib.NewRng(o.Seed)
-	policies := []pol{
-		{Kind: "uncond"}, {Kind: "beta"}, {Kind: "const", B: false},
-		{Kind: "conj", Ps: []pol{{Kind: "beta"}, {Kind: "const", B: true}}},
-		{Kind: "conj", Ps: []pol{{Kind: "const", B: false}, {Kind: "beta"}}},
-		{Kind: "conj"},
-		{Kind: "conj", Ps: []pol{{Kind: "uncond"}, {Kind: "conj", Ps: []pol{{Kind: "beta"}, {Kind: "uncond"}}}}},
-	}
-	// corpus: the interesting corners, one history each
-	run(input{policies[0], []world{
-		{0, 1, 1, 1, 0, 0, 0, 0, false, false, false}, // join
-		{0, 0, 1, 1, 1, 0, 0, 0, true, true, false},   // restore + update, both failing
-		{0, 1, 1, 0, 0, 0, 0, 0, false, false, false}, // locked: nothing
-		{1, 1, 1, 1, 0, 0, 0, 0, false, false, false}, // not registered
-		{2, 1, 1, 1, 0, 0, 0, 0, false, false, false}, // registration query fails
-	}}, em, "corpus-basic")
-	run(input{policies[1], []world{
-		{0, 1, 1, 1, 0, 0, 0, 1, false, false, false}, // chaosnet, not beta: no join
-		{0, 1, 1, 1, 0, 0, 1, 1, false, false, false}, // chaosnet over: join
-		{0, 1, 1, 1, 0, 0, 2, 0, false, false, false}, // chaosnet query fails: no join
-	}}, em, "corpus-beta")
+	quick := o.Tier == "quick"
+	deep := o.Tier == "thorough" // "search" (after a mismatch) sits in between: different seeds, moderate size
 
-	// exhaustive over the 3^7 answer combinations (registered = true) x policies, in histories of 9 worlds;
-	// the quick tier takes a seeded third of them
-	var all []world
-	for i := 0; i < 2187; i++ {
-		d := make([]int, 7)
-		x := i
-		for k := range d {
-			d[k] = x % 3
-			x /= 3
+	// ---- corpus: the interesting corners, one history each
+	run(input{0, pUncond, 0, []tick{
+		{InPool: 1, UpToDate: 1, Locked: 1},                                                     // join
+		{InPool: 0, UpToDate: 1, Locked: 1, Eligible: 1, RestoreFails: true, UpdateFails: true}, // restore + update, both failing
+		{InPool: 1, UpToDate: 1, Locked: 0},                                                     // locked: nothing
+		{InPool: 2}, {InPool: 1, UpToDate: 2}, {InPool: 1, UpToDate: 1, Locked: 2},              // failing queries
+		{InPool: 1, UpToDate: 1, Locked: 1, JoinFails: true}, // join again (failing)
+	}}, em, "corpus-basic")
+	run(input{1, pUncond, 0, []tick{{InPool: 1, UpToDate: 1, Locked: 1}, {InPool: 1, UpToDate: 1, Locked: 1}}}, em, "corpus-unregistered")
+	run(input{2, pUncond, 0, []tick{{InPool: 1, UpToDate: 1, Locked: 1}}}, em, "corpus-registration-fails")
+	run(input{0, pBeta, 0, []tick{
+		withBeta(joinable(), 2), // chaosnet, not beta: no join
+		withBeta(joinable(), 0), // chaosnet over: join
+		withBeta(joinable(), 3), // chaosnet query fails: no join
+		withBeta(joinable(), 1), // beta operator: join
+		withBeta(joinable(), 4), // beta query fails: no join
+	}}, em, "corpus-beta")
+	// a passed sub-policy must be asked again: (A yes, B no) then (A no, B yes), and permutations
+	run(input{0, conj(S(0), S(1)), 0, []tick{joinable(true, false), joinable(false, true), joinable(true, true)}}, em, "corpus-stale-yes-ab")
+	run(input{0, conj(S(0), S(1)), 0, []tick{joinable(false, true), joinable(true, false), joinable(true, true), joinable(false, false)}}, em, "corpus-stale-yes-ba")
+	run(input{0, conj(S(1), S(0)), 0, []tick{joinable(false, true), joinable(true, false)}}, em, "corpus-stale-yes-swapped")
+	run(input{0, conj(S(0), S(1), S(2)), 0, []tick{
+		joinable(true, true, false), joinable(false, true, true), joinable(true, false, true), joinable(true, true, true), joinable(false, false, false)}}, em, "corpus-stale-yes-3")
+	run(input{0, conj(S(0), conj(S(1), S(2))), 0, []tick{
+		joinable(true, true, false), joinable(true, false, true), joinable(false, true, true), joinable(true, true, true)}}, em, "corpus-stale-yes-nested")
+	run(input{0, conj(pBeta, S(0)), 0, []tick{
+		withBeta(joinable(false), 0), withBeta(joinable(true), 2), withBeta(joinable(true), 3), withBeta(joinable(true), 1)}}, em, "corpus-stale-beta")
+	run(input{0, pTbtc, 2, []tick{
+		func() tick { t := withBeta(joinable(), 0); t.PreSize = 3; return t }(), // beta yes, pre-params short
+		func() tick { t := withBeta(joinable(), 2); t.PreSize = 2; return t }(), // beta no, pre-params enough
+		func() tick { t := withBeta(joinable(), 1); t.PreSize = 2; return t }(), // both
+		func() tick { t := withBeta(joinable(), 1); t.PreSize = 1000; return t }(),
+	}}, em, "corpus-tbtc")
+	// a "no" must not be remembered either
+	run(input{0, conj(S(0), S(1)), 0, []tick{joinable(false, false), joinable(true, true), joinable(false, true), joinable(true, true)}}, em, "corpus-stale-no")
+
+	// ---- small-scope exhaustive: every sequence of sub-policy answers, operator joinable at every tick
+	keep := func(r *lib.Rng, num, den int) bool { return deep || r.Chance(num, den) }
+	{
+		r := rng.Fork("seq")
+		bits := func(x, n int) []bool {
+			var b []bool
+			for i := 0; i < n; i++ {
+				b = append(b, x>>i&1 == 1)
+			}
+			return b
 		}
-		all = append(all, world{0, d[0], d[1], d[2], d[3], d[4], d[5], d[6], false, false, false})
-	}
-	perm := rng.Fork("order").Perm(len(all))
-	n := 0
-	for pi, p := range policies {
-		r := rng.Fork(fmt.Sprintf("p%d", pi))
-		var chunk []world
-		for k, idx := range perm {
-			if o.Tier == "quick" && (k+pi)%3 != 0 {
+		seqs := func(label string, p pol, n, length, num, den int) {
+			opts := 1 << n
+			total := 1
+			for i := 0; i < length; i++ {
+				total *= opts
+			}
+			for x := 0; x < total; x++ {
+				if !keep(r, num, den) {
+					continue
+				}
+				var ts []tick
+				y := x
+				for i := 0; i < length; i++ {
+					t := joinable(bits(y%opts, n)...)
+					t.JoinFails = r.Chance(1, 3)
+					ts = append(ts, t)
+					y /= opts
+				}
+				run(input{0, p, 0, ts}, em, fmt.Sprintf("seq-%s-%d-%d", label, length, x))
+			}
+		}
+		seqs("ab", conj(S(0), S(1)), 2, 2, 1, 1)
+		seqs("ab", conj(S(0), S(1)), 2, 3, 1, 1)
+		seqs("abc", conj(S(0), S(1), S(2)), 3, 2, 1, 1)
+		seqs("abc", conj(S(0), S(1), S(2)), 3, 3, 1, 8)
+		seqs("a-bc", conj(S(0), conj(S(1), S(2))), 3, 2, 1, 2)
+		seqs("ab", conj(S(0), S(1)), 2, 4, 1, 8)
+
+		// beta x scripted, both orders; tbtc composition: beta x pre-parameters
+		for x := 0; x < 100; x++ {
+			if !keep(r, 1, 4) {
 				continue
 			}
-			w := all[idx]
-			w.RestoreFails, w.UpdateFails, w.JoinFails = r.Chance(1, 4), r.Chance(1, 4), r.Chance(1, 4)
-			if r.Chance(1, 40) {
-				w.Registered = 1 + r.Intn(2)
-			}
-			chunk = append(chunk, w)
-			if len(chunk) == 9 {
-				run(input{p, chunk}, em, fmt.Sprintf("ex-%d-%d", pi, n))
-				n++
-				chunk = nil
+			for oi, p := range []pol{conj(pBeta, S(0)), conj(S(0), pBeta)} {
+				var ts []tick
+				for _, c := range []int{x % 10, x / 10} {
+					ts = append(ts, withBeta(joinable(c%2 == 0), c/2))
+				}
+				run(input{0, p, 0, ts}, em, fmt.Sprintf("seq-beta-%d-%d", oi, x))
 			}
 		}
-		if len(chunk) > 0 {
-			run(input{p, chunk}, em, fmt.Sprintf("ex-%d-%d", pi, n))
-			n++
+		for x := 0; x < 225; x++ {
+			if !keep(r, 1, 5) {
+				continue
+			}
+			var ts []tick
+			for _, c := range []int{x % 15, x / 15} {
+				t := withBeta(joinable(), c/3)
+				t.PreSize = 1 + c%3 // below, at, above the count
+				ts = append(ts, t)
+			}
+			run(input{0, pTbtc, 2, ts}, em, fmt.Sprintf("seq-tbtc-%d", x))
 		}
 	}
-	em.Close("a case is a history of status checks (one MonitorPool start per world) under one join policy; "+
-		"worlds enumerate all 3^7 combinations of {true,false,error} answers of the seven chain queries (quick: a seeded third per policy), "+
-		"transaction outcomes random; distinct by (policy, worlds); non-trivial when at least one state-changing request was made",
-		map[string]interface{}{"exhaustive_worlds": o.Tier != "quick"})
+
+	// ---- all 3^7 combinations of chain answers, eight per history, on long-lived policy graphs with
+	// sub-policy answers changing from tick to tick (quick: a seeded third of the combinations)
+	graphs := []pol{
+		pUncond, pBeta, S(0), conj(), pTbtc,
+		conj(S(0), S(1)), conj(S(0), S(1), S(2)), conj(pBeta, S(0)), conj(S(0), pBeta),
+		conj(pUncond, conj(pBeta, pUncond)), conj(S(0), conj(S(1), pBeta), S(2)), conj(pBeta, pPre, S(0)),
+	}
+	{
+		r := rng.Fork("ex")
+		perm := rng.Fork("order").Perm(2187)
+		passes := 1
+		if deep {
+			passes = len(graphs)
+		}
+		n := 0
+		for pass := 0; pass < passes; pass++ {
+			var chunk []tick
+			flush := func() {
+				if len(chunk) > 0 {
+					run(input{0, graphs[(n+pass)%len(graphs)], r.Intn(4), chunk}, em, fmt.Sprintf("ex-%d-%d", pass, n))
+					n++
+					chunk = nil
+				}
+			}
+			for k, idx := range perm {
+				if quick && k%3 != int(o.Seed%3) {
+					continue
+				}
+				d := make([]int, 7)
+				x := idx
+				for j := range d {
+					d[j] = x % 3
+					x /= 3
+				}
+				t := tick{InPool: d[0], UpToDate: d[1], Locked: d[2], Eligible: d[3], CanRestore: d[4], Chaosnet: d[5], Beta: d[6],
+					RestoreFails: r.Chance(1, 4), UpdateFails: r.Chance(1, 4), JoinFails: r.Chance(1, 4), PreSize: r.Intn(5)}
+				for i := 0; i < nScript; i++ {
+					t.Script = append(t.Script, r.Chance(2, 3))
+				}
+				chunk = append(chunk, t)
+				if len(chunk) == 8 {
+					flush()
+				}
+			}
+			flush()
+		}
+	}
+
+	// ---- random histories of 2-8 ticks on random policy graphs
+	{
+		r := rng.Fork("rand")
+		nRand := o.Count(160, 3000)
+		if o.Tier == "search" && o.N == 0 {
+			nRand = 600
+		}
+		for i := 0; i < nRand; i++ {
+			in := input{Registered: 0, PreCount: r.Intn(4)}
+			if r.Chance(1, 25) {
+				in.Registered = 1 + r.Intn(2)
+			}
+			if r.Chance(1, 2) {
+				in.Policy = graphs[5+r.Intn(len(graphs)-5)]
+			} else {
+				in.Policy = randPol(r, 0)
+			}
+			for n := r.Range(2, 8); n > 0; n-- {
+				in.Ticks = append(in.Ticks, randTick(r))
+			}
+			run(in, em, fmt.Sprintf("rand-%d", i))
+		}
+	}
+
+	em.Close("a case is a history of 1-8 status checks on ONE scripted chain and ONE join policy object graph "+
+		"(MonitorPool for the first check, then checkOperatorStatus per tick); chain answers, sub-policy answers, "+
+		"lock state and injected errors change from tick to tick; corpus + every sequence of sub-policy answers of "+
+		"length 2-3 for 2- and 3-part conjunctions (quick: seeded subsets of the larger ones) + all 3^7 combinations of "+
+		"{true,false,error} answers of the seven chain queries (quick: a seeded third) + random histories; "+
+		"distinct by (registration, policy graph, ticks); non-trivial when at least one state-changing request was made",
+		map[string]interface{}{"exhaustive_worlds": !quick, "exhaustive_sequences": deep})
 }
